@@ -9,7 +9,8 @@ from build import BUILD, VERIF, HarnessError, Lock, file_hash, nm_undefined, par
 
 B_WRAP = ["malloc", "realloc", "free", "calloc", "fopen", "freopen", "exit", "abort", "__assert_fail",
           "getenv", "setlocale", "time", "clock_gettime", "rand", "random", "getpid",
-          "atexit", "fileno", "read", "write", "isatty", "remove", "unlink"]
+          "atexit", "fileno", "read", "write", "isatty", "remove", "unlink", "rename", "open", "close", "lseek", "fstat", "stat",
+          "fdopen", "dup", "getcwd", "umask", "gettimeofday", "clock", "getuid", "getppid", "srand", "srandom", "sysconf"]
 B_PURE = {"fclose", "getc", "ungetc", "ferror", "fflush", "stdin", "fputc", "fputs", "fwrite", "printf", "putc", "putchar",
           "puts", "stdout", "fprintf", "vfprintf", "perror", "stderr", "memcmp", "memcpy", "memset", "memmove", "strchr",
           "strcmp", "strlen", "strpbrk", "strrchr", "strncmp", "strcpy", "strncpy", "strcat", "strstr", "strspn", "strcspn",
@@ -18,7 +19,7 @@ B_PURE = {"fclose", "getc", "ungetc", "ferror", "fflush", "stdin", "fputc", "fpu
           "_GLOBAL_OFFSET_TABLE_", "bcmp", "__stack_chk_fail", "__cyg_profile_func_enter", "__cyg_profile_func_exit",
           "_IO_getc", "_IO_putc", "__uflow", "__overflow", "__isoc99_sscanf", "fgetc", "putc_unlocked", "getc_unlocked",
           "__printf_chk", "__fprintf_chk", "__vfprintf_chk", "__snprintf_chk", "__memcpy_chk", "__memset_chk", "__strcpy_chk",
-          "__isoc23_strtoull", "__isoc23_strtoul", "__isoc23_strtol", "__isoc23_strtoll", "memchr", "strnlen", "qsort", "bsearch", "abs", "labs", "llabs", "strdup_never", "fseek", "fseeko", "ftell", "ftello", "rewind", "fgetpos", "fsetpos", "feof", "clearerr", "fileno", "setvbuf", "setbuf", "fread", "fgets", "fscanf", "isalnum", "isdigit", "isalpha", "isprint", "isspace", "isxdigit"}
+          "__isoc23_strtoull", "__isoc23_strtoul", "__isoc23_strtol", "__isoc23_strtoll", "memchr", "strnlen", "localtime", "gmtime", "strftime", "mktime", "difftime", "ctime", "asctime", "basename", "dirname", "mbrtowc", "mbstowcs", "wcwidth", "iswprint", "isgraph", "ispunct", "iscntrl", "isupper", "islower", "isblank", "strerror", "strcoll", "strxfrm", "localeconv", "nl_langinfo", "__ctype_get_mb_cur_max", "putc_unlocked", "fputc_unlocked", "fwrite_unlocked", "flockfile", "funlockfile", "getchar", "fgetc", "fgets", "fread", "qsort", "bsearch", "abs", "labs", "llabs", "strdup_never", "fseek", "fseeko", "ftell", "ftello", "rewind", "fgetpos", "fsetpos", "feof", "clearerr", "fileno", "setvbuf", "setbuf", "fread", "fgets", "fscanf", "isalnum", "isdigit", "isalpha", "isprint", "isspace", "isxdigit"}
 
 SAN = ["-fsanitize=address,undefined", "-fno-sanitize=pointer-overflow", "-fno-sanitize-recover=all", "-fno-omit-frame-pointer"]
 
